@@ -12,6 +12,11 @@
    connection is still up, and when it must be gone.                                  *)
 EXTENDS Integers, Sequences, TLC, Json
 
+\* the keep-alive the broker applies for the value the CONNECT carries: 0 ("none") is replaced by a default of 30 s
+\* (server.go minKeepAlive); K below is always the effective value, and the grid unit is Effective(requested)/10
+DefaultKeepAlive == 30
+Effective(requested) == IF requested = 0 THEN DefaultKeepAlive ELSE requested
+
 CONSTANTS Gaps,        \* gaps between packets that keep the connection alive (< 10 units, i.e. < K)
           LongGaps,    \* gaps well over 1.5 K: the connection must be gone afterwards
           MaxSends, Kinds
